@@ -167,7 +167,7 @@ fn run(ctx: &mut Ctx) {
     // quick: a 1/16 systematic sample of the depth-2 product; thorough: all of unary/binary mixes
     // and 1/8 of binary-in-binary (17*17*34^3*2 = 22.7 M would be the full product)
     depth2(ctx, ctx.tier.of(4, 1));
-    let n = ctx.tier.of(400_000, 4_000_000);
+    let n = ctx.tier.of(400_000, 12_000_000);
     workload::random(ctx, &pool, n, ctx.tier.of(5, 6), &mut j);
 }
 
